@@ -241,10 +241,17 @@ def parse_rvalue(s):
         # `const "x" as ..` is not a thing; casts look like `move _3 as usize (IntToInt)`
         if k != -1 and s.endswith(')') and not s.startswith('const "'):
             head, tail = s[:k], s[k + 4:]
-            p = tail.rindex('(')
-            # PointerCoercion(Unsize, Implicit) has nested parens
-            if tail.endswith('))'):
-                p = tail.rindex('(', 0, p)
+            # the cast kind is the last balanced parenthesised group: `(IntToInt)`, `(PointerCoercion(Unsize, Implicit))`,
+            # `(PointerCoercion(ClosureFnPointer(Safe), Implicit))`
+            depth, p = 0, len(tail) - 1
+            while p >= 0:
+                if tail[p] == ')':
+                    depth += 1
+                elif tail[p] == '(':
+                    depth -= 1
+                    if depth == 0:
+                        break
+                p -= 1
             return ('cast', parse_operand(head), tail[:p].strip(), tail[p + 1:-1])
         return ('use', parse_operand(s))
     if s.startswith('['):
